@@ -17,7 +17,15 @@ struct VirtualDriver;
 
 impl embassy_time_driver::Driver for VirtualDriver {
     fn now(&self) -> u64 {
-        NOW_CALLS.with(|c| c.set(c.get() + 1));
+        let calls = NOW_CALLS.with(|c| {
+            c.set(c.get() + 1);
+            c.get()
+        });
+        if calls > NOW_BUDGET {
+            // count-based watchdog: the client keeps spinning without ever waiting
+            NOW_CALLS.with(|c| c.set(0));
+            panic!("{}", crate::sim::io::WATCHDOG_MSG);
+        }
         NOW.with(|n| n.get())
     }
 
@@ -33,6 +41,9 @@ impl embassy_time_driver::Driver for VirtualDriver {
 }
 
 embassy_time_driver::time_driver_impl!(static DRIVER: VirtualDriver = VirtualDriver);
+
+/// `Instant::now()` calls allowed per case before the watchdog aborts it.
+pub const NOW_BUDGET: u64 = 3_000_000;
 
 /// Microsecond ticks.
 pub const TICKS_PER_MS: u64 = 1_000;
